@@ -52,7 +52,9 @@ Inductive target :=
 | TUser (u : nat)                         (* the three user callbacks of subscriber u *)
 | THandler (n : nid) (port ser : nat)     (* closures made by StreamController::new_observer *)
 | TForward (o : oid)                      (* Behavior/ReplaySubject: s_next.next(x) ... *)
-| TFeed (h : hid)                         (* publish/ref_count/replay connection: sbj.next(x) ... *)
+| TGated (o : oid)                        (* ReplaySubject: the same closures while `ready` is still false: they drop the event *)
+| TFeed (h : hid)                         (* publish connection: sbj.next(x) ... *)
+| TFeedK (k : kid)                        (* ref_count/replay connection: the same; a terminal empties the connection slot first *)
 | TTapLog (t : nat)                       (* the Observer built by `tap` *)
 | TJunk.                                  (* junk callbacks *)
 
@@ -126,7 +128,7 @@ Inductive lockid :=
 | LSt (n : nid)            (* operator state of node n *)
 | LCell (x : xid)          (* sbsc cell *)
 | LHookSub (h : hid) | LHookUnsub (h : hid)   (* Subject.on_subscribe / on_unsubscribe *)
-| LSlot (k : kid)          (* RefCount/Replay.subscription *)
+| LSlot (k : kid)          (* RefCount/Replay.subscription: no longer held across a call-out (kept for numbering) *)
 | LHist (h : hid).         (* Behavior/Replay history cells (taken together) *)
 Inductive mode := MR | MW.
 Definition lockid_eqb (a b : lockid) : bool :=
@@ -197,8 +199,11 @@ Inductive req :=
 | SetTdCell (o : oid) (x : xid)           (* s.set_on_unsubscribe(cell closure) *)
 | HookSub (h : hid) (len : nat)           (* on_subscribe(len), slot lock held *)
 | HookUnsub (h : hid) (len : nat)
-| Connect (k : kid)                       (* ref_count/replay: body under the slot write lock *)
-| SlotUnsub (k : kid)                     (* ... if let Some(sbsc) = slot { sbsc.unsubscribe() } *)
+| Connect (k : kid)                       (* ref_count/replay on_subscribe(1): record the connection, then subscribe the source *)
+| SlotUnsub (k : kid)                     (* on_unsubscribe(0): take the connection out of the slot and unsubscribe it *)
+| BehaviorJoin (h : hid) (o : oid)        (* BehaviorSubject::observable after the hand-over: join unless the subscriber left *)
+| ReplayDone (h : hid) (o' : oid)         (* ReplaySubject::observable: `ready = true` unless a stored terminal was replayed *)
+| CellCheck (o : oid) (x : xid)           (* ... if !s.is_subscribed() { cell.unsubscribe() } *)
 | MkSub (o : oid) (d : dest)              (* Subscription::new, stored where d says *)
 | SubUnsub (s : sid)                      (* Subscription::unsubscribe *)
 | CellUnsub (x : xid)                     (* if let Some(sbsc) = cell { sbsc.unsubscribe() } *)
